@@ -546,8 +546,11 @@ def rule_castorder(ctx) -> RuleResult:
         on_input = isinstance(recv, ast.Name) and recv.id == "array"
         arg = norm(c.args[0]) if c.args else "?"
         if on_input:
-            ok = arg in ("to_",)
-            res.inst(f"_numbagg_wrapper: input cast array.astype({arg}) comes from the CAST_TO table: {ok}", "numbagg-in")
+            # accepted: the CAST_TO table (checked above to widen), or a promotion with the input's own dtype (np.result_type never narrows)
+            a0 = c.args[0] if c.args else None
+            promotes = isinstance(a0, ast.Call) and norm(a0.func) in ("np.result_type", "np.promote_types") and any(norm(x) == "array.dtype" for x in a0.args)
+            ok = arg in ("to_",) or promotes
+            res.inst(f"_numbagg_wrapper: input cast array.astype({arg}) comes from the CAST_TO table or promotes the input's own dtype: {ok}", f"numbagg-in|{arg[:30]}")
             if not ok:
                 res.report("aggregate_numbagg._numbagg_wrapper|input-cast", w.where(c), w.qualname,
                            f"array.astype({arg}) before accumulating: the input may only be cast through the widening CAST_TO table, "
@@ -1635,4 +1638,202 @@ def rule_fillcast(ctx) -> RuleResult:
     if n_calls == 0:
         res.notes.append("_finalize_results no longer re-indexes with the user's fill: rule not applicable")
         res.min_instances = 0
+    return res
+
+
+# ---------------------------------------------------------------------------------------------
+# R-VARSHIFT, width clause (C20, C01): the dtype in which the shift `array - first` is computed can hold the difference of ANY two values of
+# the input dtype.  The cast's dtype expression is evaluated abstractly over the integer dtype alphabet with NumPy's promotion rules (frozen
+# below): for an N-bit signed or unsigned input the shift dtype must be floating or a signed integer with more than N bits; for 64-bit input
+# only floating qualifies (np.var itself computes integer input in float64).
+_INT_ALPHABET = ["i1", "i2", "i4", "i8", "u1", "u2", "u4", "u8"]
+_NP_SCALARS = {"np.int8": "i1", "np.int16": "i2", "np.int32": "i4", "np.int64": "i8", "np.intp": "i8", "np.int_": "i8",
+               "np.uint8": "u1", "np.uint16": "u2", "np.uint32": "u4", "np.uint64": "u8", "np.uint": "u8",
+               "np.float16": "f2", "np.float32": "f4", "np.float64": "f8", "float": "f8", "np.floating": "f8"}
+
+
+def _np_result_type(a: str, b: str) -> str:
+    """NumPy's promotion for the bool/int/float kinds used here (value-independent, NEP 50)"""
+    if a == b:
+        return a
+    ka, na, kb, nb = a[0], int(a[1:]), b[0], int(b[1:])
+    if ka == kb:
+        return f"{ka}{max(na, nb)}"
+    if "f" in (ka, kb):
+        (kf, nf), (ki, ni) = ((ka, na), (kb, nb)) if ka == "f" else ((kb, nb), (ka, na))
+        need = 2 if ni == 1 else (4 if ni == 2 else 8)      # float16 holds 8-bit ints, float32 16-bit, float64 the rest
+        return f"f{max(nf, need)}"
+    # signed with unsigned
+    (ns, nu) = (na, nb) if ka == "i" else (nb, na)
+    if ns > nu:
+        return f"i{ns}"
+    return f"i{nu * 2}" if nu < 8 else "f8"
+
+
+def _dtype_of(e, T: str, arr: str, env: dict):
+    """abstract dtype of an expression for input dtype T; None when not expressible"""
+    t = norm(e)
+    if t in (arr, f"{arr}.dtype") or (isinstance(e, ast.Subscript) and norm(e.value) == arr):
+        return T
+    if t in _NP_SCALARS:
+        return _NP_SCALARS[t]
+    if isinstance(e, ast.Name) and e.id in env:
+        return _dtype_of(env[e.id], T, arr, {k: v for k, v in env.items() if k != e.id})
+    if isinstance(e, ast.Call):
+        fn = norm(e.func)
+        if fn in _NP_SCALARS and len(e.args) <= 1:
+            return _NP_SCALARS[fn]
+        if fn in ("np.result_type", "np.promote_types", "np.find_common_type") and e.args:
+            out = None
+            for a in e.args:
+                d = _dtype_of(a, T, arr, env)
+                if d is None:
+                    return None
+                out = d if out is None else _np_result_type(out, d)
+            return out
+        if fn == "np.dtype" and len(e.args) == 1:
+            return _dtype_of(e.args[0], T, arr, env)
+        return None
+    if isinstance(e, ast.BinOp) and isinstance(e.op, (ast.Mult, ast.Add, ast.Sub)):
+        l, r = _dtype_of(e.left, T, arr, env), _dtype_of(e.right, T, arr, env)
+        return None if l is None or r is None else _np_result_type(l, r)
+    if isinstance(e, ast.UnaryOp) and isinstance(e.op, ast.USub):
+        return _dtype_of(e.operand, T, arr, env)
+    if isinstance(e, ast.IfExp):
+        c = e.test
+        # <arr>.dtype.kind in "iub" / == "u" ...
+        if isinstance(c, ast.Compare) and len(c.ops) == 1 and norm(c.left) == f"{arr}.dtype.kind" and isinstance(c.comparators[0], ast.Constant) \
+                and isinstance(c.comparators[0].value, str):
+            kinds = c.comparators[0].value
+            hit = (T[0] in kinds) if isinstance(c.ops[0], (ast.In, ast.Eq)) else (T[0] not in kinds)
+            return _dtype_of(e.body if hit else e.orelse, T, arr, env)
+        return None
+    return None
+
+
+def rule_varwidth(ctx) -> RuleResult:
+    res = RuleResult("R-VARSHIFT[width]", "the variance shift is computed in a dtype that holds the difference of any two input values", min_instances=8)
+    f = ctx.prog.func("aggregate_npg._var_std_wrapper")
+    arr = f.params[1]
+    env = {a.targets[0].id: a.value for a in walk_own(f.node)
+           if isinstance(a, ast.Assign) and len(a.targets) == 1 and isinstance(a.targets[0], ast.Name) and a.targets[0].id != arr}
+    casts = [a for a in walk_own(f.node) if isinstance(a, ast.Assign) and len(a.targets) == 1 and norm(a.targets[0]) == arr and isinstance(a.value, ast.Call)
+             and isinstance(a.value.func, ast.Attribute) and a.value.func.attr == "astype" and norm(a.value.func.value) == arr and a.value.args]
+    subs = [x for x in ast.walk(f.node) if isinstance(x, ast.BinOp) and isinstance(x.op, ast.Sub) and norm(x.left) == arr]
+    if not subs:
+        res.notes.append("_var_std_wrapper no longer shifts by a per-group element: rule not applicable")
+        res.min_instances = 0
+        return res
+    if len(casts) != 1:
+        res.notes.append(f"UNDECIDED: {len(casts)} casts of the input before the shift (expected one)")
+        res.min_instances = 0
+        return res
+    cast = casts[0]
+    for T in _INT_ALPHABET:
+        D = _dtype_of(cast.value.args[0], T, arr, env)
+        if D is None:
+            res.inst(f"_var_std_wrapper: input {T}: shift dtype not expressible [UNDECIDED]", f"w|{T}")
+            res.notes.append(f"UNDECIDED: dtype expression '{norm(cast.value.args[0])[:60]}' is outside the abstract evaluator")
+            continue
+        bits = int(T[1:]) * 8
+        ok = D[0] == "f" or (D[0] == "i" and int(D[1:]) * 8 > bits)
+        res.inst(f"_var_std_wrapper: input {T} -> shift computed in {D}: holds every difference: {ok}", f"w|{T}")
+        if not ok:
+            res.report(f"aggregate_npg._var_std_wrapper|shift-dtype-too-narrow|{T}", f.where(cast), f.qualname,
+                       f"for {T} input the shift '{norm(subs[0])[:40]}' is computed in {D} ('{norm(cast.value.args[0])[:60]}'): the difference of two {T} values "
+                       f"needs more than {bits} bits, so e.g. var([100, -100]) of int8 wraps (784 instead of 10000); np.var computes integer input in float64")
+    return res
+
+
+# ---------------------------------------------------------------------------------------------
+# R-ACCFORWARD (C20, C01): the accumulation dtype asked of an engine wrapper reaches the kernel.
+# chunk_reduce hands every kernel `dtype=` (int64 for an int8 sum).  numbagg's grouped kernels take no dtype and accumulate in the dtype of the
+# data, so the wrapper must widen the data itself -- *before* the kernel -- for every reduction whose result grows with the number of members
+# (sums, products, sums of squares, counts); a cast of the result afterwards cannot undo the wrap-around.  And every named function of the
+# module that reaches the wrapper for such a reduction forwards its own `dtype`.
+_ACCUMULATING = {"nansum", "nanprod", "nansum_of_squares", "nancount"}
+
+
+def rule_accforward(ctx) -> RuleResult:
+    res = RuleResult("R-ACCFORWARD", "engine wrappers whose kernels take no dtype widen the data to the requested dtype before accumulating", min_instances=2)
+    from ..astutil import guard_facts
+    prog = ctx.prog
+    w = prog.funcs.get("aggregate_numbagg._numbagg_wrapper")
+    if w is None:
+        res.notes.append("no numbagg wrapper in the package: rule not applicable")
+        res.min_instances = 0
+        return res
+    if "dtype" not in w.params or "func" not in w.params:
+        raise AnalysisError("_numbagg_wrapper lost its dtype / func parameter (anchor)")
+    arr = w.params[1]
+    # the kernel call: a call of a local bound to getattr(numbagg.grouped, ...)
+    kern_names = {a.targets[0].id for a in walk_own(w.node) if isinstance(a, ast.Assign) and len(a.targets) == 1 and isinstance(a.targets[0], ast.Name)
+                  and isinstance(a.value, ast.Call) and norm(a.value.func) == "getattr" and "numbagg" in norm(a.value.args[0])}
+    kcalls = [c for c in calls_in(w.node) if isinstance(c.func, ast.Name) and c.func.id in kern_names]
+    if not kcalls:
+        raise AnalysisError("_numbagg_wrapper: the kernel call (a local bound to getattr(numbagg.grouped, ...)) was not found (anchor)")
+    consts = {}
+    for a in w.unit.tree.body:
+        if isinstance(a, ast.Assign) and len(a.targets) == 1 and isinstance(a.targets[0], ast.Name) and isinstance(a.value, (ast.Tuple, ast.List, ast.Set)):
+            consts[a.targets[0].id] = {e.value for e in a.value.elts if isinstance(e, ast.Constant)}
+    pm = parents_map(w.node)
+    for k in kcalls:
+        forwarded = kwarg(k, "dtype") is not None
+        covered: set[str] = set()
+        kinds_ok = True
+        if not forwarded:
+            for a in walk_own(w.node):
+                if isinstance(a, ast.Assign) and len(a.targets) == 1 and norm(a.targets[0]) == arr and isinstance(a.value, ast.Call) \
+                        and isinstance(a.value.func, ast.Attribute) and a.value.func.attr == "astype" and a.value.args and "dtype" in names_in(a.value.args[0]) \
+                        and a.lineno < k.lineno:
+                    for at, pol in guard_facts(a, pm):
+                        e = ast.parse(at, mode="eval").body
+                        if pol and isinstance(e, ast.Compare) and len(e.ops) == 1 and isinstance(e.ops[0], ast.In) and norm(e.left) == "func":
+                            r = e.comparators[0]
+                            covered |= consts.get(norm(r), set()) if isinstance(r, ast.Name) else {x.value for x in getattr(r, "elts", []) if isinstance(x, ast.Constant)}
+                        if pol and isinstance(e, ast.Compare) and norm(e.left) == f"{arr}.dtype.kind" and isinstance(e.comparators[0], ast.Constant):
+                            kinds_ok = {"i", "u"} <= set(str(e.comparators[0].value))
+                    if not any(at_.startswith("func in") for at_, _ in guard_facts(a, pm)):
+                        covered |= _ACCUMULATING          # unconditional widening
+        missing = sorted(_ACCUMULATING - covered) if not forwarded else []
+        res.inst(f"_numbagg_wrapper: kernel call takes dtype=: {forwarded}; data widened to `dtype` first for: {sorted(covered) or '-'} (integer kinds covered: {kinds_ok})", "wrapper")
+        if not forwarded and (missing or not kinds_ok):
+            res.report("aggregate_numbagg._numbagg_wrapper|accumulates-in-input-dtype|" + "+".join(missing or ["kinds"]), w.where(k), w.qualname,
+                       f"'{norm(k)[:50]}' accumulates in the dtype of the data (the kernels take no dtype) and the requested `dtype` is applied to the result only: "
+                       f"for {missing or 'some integer kinds'} narrow integers wrap before the cast (nansum of int8 [100, 100] -> -56 on the automatically chosen engine)")
+    # named functions that reach the wrapper for an accumulating kernel forward their dtype
+    for q, f in sorted(prog.funcs.items()):
+        if not q.startswith("aggregate_numbagg.") or f is w or isinstance(f.node, ast.Lambda) or "dtype" not in f.params:
+            continue
+        for c in calls_in(f.node):
+            if norm(c.func) != "_numbagg_wrapper":
+                continue
+            fn = kwarg(c, "func")
+            if not (isinstance(fn, ast.Constant) and fn.value in _ACCUMULATING):
+                continue
+            d = kwarg(c, "dtype")
+            ok = d is not None and norm(d) == "dtype"
+            res.inst(f"{q}: _numbagg_wrapper(func={fn.value!r}) forwards its dtype: {ok}", f"{q}|{fn.value}")
+            if not ok:
+                res.report(f"{q}|dtype-not-forwarded|{fn.value}", f.where(c), q,
+                           f"{q} receives `dtype` (np.intp for counts) but calls the wrapper without it: the count is accumulated in the dtype of the data "
+                           "(count of 300 int8 values -> 44) and only converted afterwards")
+    # transform clause: kernels that square the data before summing square in the accumulation dtype.  The squares of int8 values do not fit
+    # int8: `array**2` (flox engine) and numpy_groupies' "sumofsquares" (which squares internally) must see data already widened towards `dtype`,
+    # or delegate to a sibling of the same module that does, forwarding dtype.
+    for unit in ("aggregate_flox", "aggregate_npg"):
+        for q, f in sorted(prog.funcs.items()):
+            if not q.startswith(unit + ".") or not q.endswith("sum_of_squares") or isinstance(f.node, ast.Lambda) or "dtype" not in f.params:
+                continue
+            data = f.params[1]
+            widened = any(isinstance(a, ast.Assign) and len(a.targets) == 1 and norm(a.targets[0]) == data and isinstance(a.value, ast.Call)
+                          and isinstance(a.value.func, ast.Attribute) and a.value.func.attr == "astype" and a.value.args and "dtype" in names_in(a.value.args[0])
+                          for a in walk_own(f.node))
+            delegates = any(norm(c.func).endswith("sum_of_squares") and norm(c.func) != f.name and kwarg(c, "dtype") is not None and norm(kwarg(c, "dtype")) == "dtype"
+                            and f"{unit}.{norm(c.func)}" in prog.funcs for c in calls_in(f.node))
+            res.inst(f"{q}: data widened towards `dtype` before squaring: {widened}; delegates to a sibling with dtype=dtype: {delegates}", f"{q}|square")
+            if not widened and not delegates:
+                res.report(f"{q}|squares-in-input-dtype", f.where(), q,
+                           f"{q} squares the data (itself or inside the external kernel) in the dtype of the input and applies `dtype` to the sum only: the squares of "
+                           "narrow integers wrap, so the chunked var of int8 [100, -100, 50, 20] is -341.25 (eager 5418.75) and std is NaN")
     return res
